@@ -316,7 +316,7 @@ def shrink(m, budget, ops, rep_note):
         for c in cands:
             steps, _, bad = run_history(m, budget, [list(o) for o in c], probe=False)
             terms.append(case_term(budget, steps))
-        return C.run_coq_cases("c06shrink", HEADER, terms, "check_case ef")
+        return C.run_coq_cases("c06shrink", HEADER, terms, "check_case ef", case_type="Z * list rec_step")
     for _ in range(12):
         cands = [cur[:i] + cur[i + 1:] for i in range(len(cur))]
         if not cands:
@@ -370,7 +370,7 @@ def run(tier, seed):
             if len(rep.samples) < 3 and stats["evictions"] > 0:
                 rep.samples.append({"budget": budget, "ops": ops[:12], "evictions": stats["evictions"]})
         try:
-            results = C.run_coq_cases("c06", HEADER, cases, "check_case ef")
+            results = C.run_coq_cases("c06", HEADER, cases, "check_case ef", case_type="Z * list rec_step")
         except RuntimeError as e:
             rep.broken.append("correspondence C06 (model could not be evaluated): %s" % str(e)[:500])
             results = [None] * len(cases)
